@@ -785,8 +785,13 @@ class Arr:
         return self._bin(o, lambda x, y: x - y, rev=True)
 
     def __mul__(self, o):
-        if self.is_list and isinstance(o, int):
+        if self.is_list and isinstance(o, int) and not isinstance(o, bool):
             return Arr.from_items(self.to_list() * o, is_list=True)
+        if self.is_list and is_num(o) and not is_conc(o) and s_is_int(o) and is_conc(self.n) and self.n == 1:
+            v = self.to_list()[0]           # [c] * n with a symbolic count
+            r = Arr.build(s_max(o, 0), lambda i: v, self.dtype)
+            r.is_list = True
+            return r
         return self._bin(o, lambda x, y: x * y)
 
     def __rmul__(self, o):
